@@ -1,7 +1,9 @@
 /-
 Every task evolves only by the primitive per-task steps of the model (`TaskStep`), whatever program
-runs: `apply_steps` / `run_steps`. Monotone facts about a task (cancellation is never undone, a consumed
-handle never comes back, counters only grow) follow by induction over these steps.
+runs: `apply_steps` / `foldl_steps`. Each step needs a live holder of the task (its handle, a waker clone,
+or the executor itself); `Task::run` steps happen only inside ticks. Monotone facts about a task
+(cancellation is never undone, a consumed handle never comes back, counters only grow) follow by
+induction over these steps.
 -/
 import Compio.Lemmas.ExecutorOps
 
@@ -10,58 +12,255 @@ open Compio.TaskWord Compio.Gen
 set_option linter.unusedSimpArgs false
 set_option linter.unusedVariables false
 
-/-- the primitive things that can happen to one task -/
-inductive TaskStep : TaskSt → TaskSt → Prop where
-  | poll (t : TaskSt) (w : Nat) : t.handle = true → TaskStep t (pollTask t w).1
-  | hdrop (t : TaskSt) : t.handle = true → TaskStep t (dropRef { cancelWord t true with handle := false })
-  | detach (t : TaskSt) : t.handle = true → TaskStep t (dropRef { t with handle := false })
-  | cancel (t : TaskSt) : t.handle = true → TaskStep t (cancelWord t false)
-  | wdrop (t : TaskSt) : t.wakers ≠ 0 → TaskStep t (dropRef { t with wakers := t.wakers - 1 })
-  | run (t : TaskSt) : TaskStep t (runTask t).1
-  | clear (t : TaskSt) : TaskStep t (clearedTask t)
+/-- somebody still holds a reference to the task: the handle, a waker clone, or the executor (the task
+is still in the queue exactly as long as its future has not been dropped) -/
+def Live (t : TaskSt) : Prop := t.handle = true ∨ t.wakers ≠ 0 ∨ t.futDrops = 0
 
-inductive TaskSteps : TaskSt → TaskSt → Prop where
-  | refl (t : TaskSt) : TaskSteps t t
-  | tail {a b c : TaskSt} : TaskSteps a b → TaskStep b c → TaskSteps a c
+/-- the primitive things that can happen to one task; `run = true`: `Task::run` steps allowed -/
+inductive TaskStep (run : Bool) : TaskSt → TaskSt → Prop where
+  | poll (t : TaskSt) (w : Nat) : t.handle = true → TaskStep run t (pollTask t w).1
+  | rpoll (t : TaskSt) (w : Nat) : t.handle = true → TaskStep run t (remotePollTask t w).1
+  | hdrop (t : TaskSt) : t.handle = true → TaskStep run t (dropRef { cancelWord t true with handle := false })
+  | detach (t : TaskSt) : t.handle = true → TaskStep run t (dropRef { t with handle := false })
+  | cancel (t : TaskSt) : t.handle = true → TaskStep run t (cancelWord t false)
+  | wdrop (t : TaskSt) : t.wakers ≠ 0 → TaskStep run t (dropRef { t with wakers := t.wakers - 1 })
+  /-- `Remote::schedule`: `start_scheduling` / `finish_scheduling` -/
+  | sched (t : TaskSt) (a b : Bool) : Live t →
+      TaskStep run t { t with word := { t.word with scheduled := a, scheduling := b } }
+  | run (t : TaskSt) : run = true → t.futDrops = 0 → TaskStep run t (runTask t).1
+  | clear (t : TaskSt) : t.futDrops = 0 → TaskStep run t (clearedTask t)
 
-theorem TaskSteps.single {a b : TaskSt} (h : TaskStep a b) : TaskSteps a b := .tail (.refl a) h
+inductive TaskSteps (run : Bool) : TaskSt → TaskSt → Prop where
+  | refl (t : TaskSt) : TaskSteps run t t
+  | tail {a b c : TaskSt} : TaskSteps run a b → TaskStep run b c → TaskSteps run a c
 
-theorem TaskSteps.trans {a b c : TaskSt} (h1 : TaskSteps a b) (h2 : TaskSteps b c) : TaskSteps a c := by
+theorem TaskSteps.single {r : Bool} {a b : TaskSt} (h : TaskStep r a b) : TaskSteps r a b := .tail (.refl a) h
+
+theorem TaskSteps.trans {r : Bool} {a b c : TaskSt} (h1 : TaskSteps r a b) (h2 : TaskSteps r b c) :
+    TaskSteps r a c := by
   induction h2 with
   | refl => exact h1
   | tail _ hs ih => exact .tail ih hs
 
+theorem TaskStep.weaken {r : Bool} {a b : TaskSt} (h : TaskStep r a b) : TaskStep true a b := by
+  cases h with
+  | poll w hh => exact .poll _ w hh
+  | rpoll w hh => exact .rpoll _ w hh
+  | hdrop hh => exact .hdrop _ hh
+  | detach hh => exact .detach _ hh
+  | cancel hh => exact .cancel _ hh
+  | wdrop hw => exact .wdrop _ hw
+  | sched x y hl => exact .sched _ x y hl
+  | run _ hf => exact .run _ rfl hf
+  | clear hf => exact .clear _ hf
+
+theorem TaskSteps.weaken {r : Bool} {a b : TaskSt} (h : TaskSteps r a b) : TaskSteps true a b := by
+  induction h with
+  | refl => exact .refl _
+  | tail _ hs ih => exact .tail ih hs.weaken
+
 /-- a reflexive-transitive property of pairs of task states that every primitive step has, holds along
 any number of steps -/
-theorem TaskSteps.induct {R : TaskSt → TaskSt → Prop} (hrefl : ∀ t, R t t)
-    (htrans : ∀ a b c, R a b → R b c → R a c) (hstep : ∀ a b, TaskStep a b → R a b)
-    {a b : TaskSt} (h : TaskSteps a b) : R a b := by
+theorem TaskSteps.induct {r : Bool} {R : TaskSt → TaskSt → Prop} (hrefl : ∀ t, R t t)
+    (htrans : ∀ a b c, R a b → R b c → R a c) (hstep : ∀ a b, TaskStep r a b → R a b)
+    {a b : TaskSt} (h : TaskSteps r a b) : R a b := by
   induction h with
   | refl => exact hrefl _
   | tail _ hs ih => exact htrans _ _ _ ih (hstep _ _ hs)
 
-/-- the loop of `tick` changes tasks only by `Task::run` steps -/
+theorem TaskStep.live {r : Bool} {a b : TaskSt} (h : TaskStep r a b) : Live a := by
+  cases h with
+  | poll w hh => exact Or.inl hh
+  | rpoll w hh => exact Or.inl hh
+  | hdrop hh => exact Or.inl hh
+  | detach hh => exact Or.inl hh
+  | cancel hh => exact Or.inl hh
+  | wdrop hw => exact Or.inr (Or.inl hw)
+  | sched x y hl => exact hl
+  | run _ hf => exact Or.inr (Or.inr hf)
+  | clear hf => exact Or.inr (Or.inr hf)
+
+/-- a task nobody holds any more does not change -/
+theorem TaskSteps.frozen {r : Bool} {a b : TaskSt} (h : TaskSteps r a b) (hd : ¬ Live a) : b = a := by
+  induction h with
+  | refl => rfl
+  | tail _ hs ih => rw [ih] at hs; exact absurd hs.live hd
+
+theorem sameUpToSched_steps {r : Bool} {a b : TaskSt} (hl : Live b) (h : SameUpToSched a b) : TaskSteps r b a := by
+  obtain ⟨x, y, he⟩ := h
+  rw [he]; exact .single (.sched b x y hl)
+
+/-- the loop of `tick` changes tasks only by `Task::run` steps (and the `Remote::schedule` of a task that
+has itself woken from another thread) -/
 theorem tickLoop_steps (n : Nat) (e : Exec) (h : Inv e) :
-    ∀ x t, e.get? x = some t → ∃ t', (tickLoop n e.hot.head? e []).1.get? x = some t' ∧ TaskSteps t t' := by
-  refine tickLoop_induct (fun _ e r => ∀ x t, e.get? x = some t → ∃ t', r.1.get? x = some t' ∧ TaskSteps t t')
+    ∀ x t, e.get? x = some t → ∃ t', (tickLoop n e.hot.head? e []).1.get? x = some t' ∧ TaskSteps true t t' := by
+  have hstep : ∀ (e : Exec) (id : Nat) (rest : List Nat) (t : TaskSt), Inv e → e.hot = id :: rest →
+      e.get? id = some t → StepFacts e id rest t (tickStep e id) →
+      ∃ t', (tickStep e id).1.get? id = some t' ∧ TaskSteps true t t' := by
+    intro e id rest t h hh hg sf
+    obtain ⟨t0, hg0, ht0⟩ := h.get_of_mem (id := id) (Or.inl (by simp [hh]))
+    rw [hg] at hg0; cases hg0
+    have hrun : TaskSteps true t (runTask t).1 := .single (.run t rfl (ht0.inq_fd rfl))
+    obtain ⟨t', hg', he | ⟨hk, hs⟩⟩ := sf.taskEq
+    · exact ⟨t', hg', he ▸ hrun⟩
+    · refine ⟨t', hg', hrun.trans (sameUpToSched_steps ?_ hs)⟩
+      have hb := ht0.inq_c rfl
+      rcases runTask_cases t hb with ⟨_, hr⟩ | ⟨_, hr | hr | hr | hr | ⟨o, _, _, hr⟩⟩ <;> rw [hr] at hk ⊢ <;>
+        simp at hk
+      exact Or.inr (Or.inr (by simp [polledTask, ht0.inq_fd rfl]))
+  refine tickLoop_induct (fun _ e r => ∀ x t, e.get? x = some t → ∃ t', r.1.get? x = some t' ∧ TaskSteps true t t')
     ?_ ?_ ?_ ?_ n e h
   · intro e h x t hx; exact ⟨t, hx, .refl t⟩
   · intro _ e h _ x t hx; exact ⟨t, hx, .refl t⟩
   · intro _ e id t h hh hg sf x tx hx
     by_cases hxi : x = id
     · subst hxi; rw [hg] at hx; cases hx
-      exact ⟨_, sf.taskEq, .single (.run t)⟩
+      exact hstep e x [] t h hh hg sf
     · exact ⟨tx, by rw [sf.frame x hxi]; exact hx, .refl tx⟩
   · intro _ e id rest t r h hh hne hg sf _ hr x tx hx
     by_cases hxi : x = id
     · subst hxi; rw [hg] at hx; cases hx
-      obtain ⟨t', hg', hs⟩ := hr x _ sf.taskEq
-      exact ⟨t', hg', (TaskSteps.single (.run t)).trans hs⟩
+      obtain ⟨t1, hg1, hs1⟩ := hstep e x rest t h hh hg sf
+      obtain ⟨t', hg', hs⟩ := hr x _ hg1
+      exact ⟨t', hg', hs1.trans hs⟩
     · exact hr x tx (by rw [sf.frame x hxi]; exact hx)
 
-/-- every operation changes every task only by primitive steps -/
-theorem apply_steps {e : Exec} (h : Inv e) (op : Op) {id : Nat} {t : TaskSt} (hg : e.get? id = some t) :
-    ∃ t', (apply e op).get? id = some t' ∧ TaskSteps t t' := by
+theorem tickFrom_steps {e : Exec} (h : Inv e) (n : Nat) {x : Nat} {t : TaskSt} (hx : e.get? x = some t) :
+    ∃ t', (tickFrom e n).1.get? x = some t' ∧ TaskSteps true t t' :=
+  tickLoop_steps n (drainSync e) (drainSync_inv h) x t (by rw [drainSync_get? h]; exact hx)
+
+/-- does the operation run tasks -/
+def Op.ticks : Op → Bool
+  | .tick _ => true
+  | .rwakeb _ _ => true
+  | _ => false
+
+theorem remoteSchedule_steps {e : Exec} (r : Bool) (id : Nat) {x : Nat} {t : TaskSt} (hx : e.get? x = some t)
+    (hl : x = id → Live t) :
+    ∃ t', (remoteSchedule e id).get? x = some t' ∧ TaskSteps r t t' := by
+  by_cases hxi : x = id
+  · subst hxi
+    exact ⟨_, remoteSchedule_get?_self hx, .single (.sched t true false (hl rfl))⟩
+  · exact ⟨t, by rw [remoteSchedule_get?_ne _ hxi]; exact hx, .refl t⟩
+
+theorem dropRef_wakers (t : TaskSt) : (dropRef t).wakers = t.wakers := by
+  obtain ⟨⟨s, sg, nsw, hw, c, hr, nc, cnt⟩, st, slot, script, sh, hd, wk, polls, fd, rt, rd, ss, sd, de, uaf, bp⟩ := t
+  cases hr <;> cases hw <;> simp [dropRef] <;> split <;> split <;> rfl
+
+theorem taskDropByExecutor_wakers (t : TaskSt) : (taskDropByExecutor t).wakers = t.wakers := by
+  obtain ⟨⟨s, sg, nsw, hw, c, hr, nc, cnt⟩, st, slot, script, sh, hd, wk, polls, fd, rt, rd, ss, sd, de, uaf, bp⟩ := t
+  cases c <;> cases hw <;> cases nsw <;> simp [taskDropByExecutor]
+
+theorem runTask_wakers (t : TaskSt) (hb : t.word.completed = false) : t.wakers ≤ (runTask t).1.wakers := by
+  rcases runTask_cases t hb with ⟨_, hr⟩ | ⟨_, hr | hr | hr | hr | ⟨o, _, _, hr⟩⟩ <;> rw [hr] <;>
+    simp [droppedTask, polledTask, clonedTask, finishedTask, dropRef_wakers, taskDropByExecutor_wakers]
+
+/-- waker clones only accumulate during a tick -/
+theorem tickLoop_wakers (n : Nat) (e : Exec) (h : Inv e) :
+    ∀ x t, e.get? x = some t → ∃ t', (tickLoop n e.hot.head? e []).1.get? x = some t' ∧ t.wakers ≤ t'.wakers := by
+  have hstep : ∀ (e : Exec) (id : Nat) (rest : List Nat) (t : TaskSt), Inv e → e.hot = id :: rest →
+      e.get? id = some t → StepFacts e id rest t (tickStep e id) →
+      ∃ t', (tickStep e id).1.get? id = some t' ∧ t.wakers ≤ t'.wakers := by
+    intro e id rest t h hh hg sf
+    obtain ⟨t0, hg0, ht0⟩ := h.get_of_mem (id := id) (Or.inl (by simp [hh]))
+    rw [hg] at hg0; cases hg0
+    have := runTask_wakers t (ht0.inq_c rfl)
+    obtain ⟨t', hg', he | ⟨_, x, y, he⟩⟩ := sf.taskEq
+    · exact ⟨t', hg', by rw [he]; exact this⟩
+    · exact ⟨t', hg', by rw [he]; exact this⟩
+  refine tickLoop_induct (fun _ e r => ∀ x t, e.get? x = some t → ∃ t', r.1.get? x = some t' ∧ t.wakers ≤ t'.wakers)
+    ?_ ?_ ?_ ?_ n e h
+  · intro e h x t hx; exact ⟨t, hx, Nat.le_refl _⟩
+  · intro _ e h _ x t hx; exact ⟨t, hx, Nat.le_refl _⟩
+  · intro _ e id t h hh hg sf x tx hx
+    by_cases hxi : x = id
+    · subst hxi; rw [hg] at hx; cases hx
+      exact hstep e x [] t h hh hg sf
+    · exact ⟨tx, by rw [sf.frame x hxi]; exact hx, Nat.le_refl _⟩
+  · intro _ e id rest t r h hh hne hg sf _ hr x tx hx
+    by_cases hxi : x = id
+    · subst hxi; rw [hg] at hx; cases hx
+      obtain ⟨t1, hg1, hs1⟩ := hstep e x rest t h hh hg sf
+      obtain ⟨t', hg', hs⟩ := hr x _ hg1
+      exact ⟨t', hg', Nat.le_trans hs1 hs⟩
+    · exact hr x tx (by rw [sf.frame x hxi]; exact hx)
+
+theorem finishSched_steps {e : Exec} (r : Bool) (id : Nat) {x : Nat} {t : TaskSt} (hx : e.get? x = some t)
+    (hl : x = id → Live t) :
+    ∃ t', (finishSched e id).get? x = some t' ∧ TaskSteps r t t' := by
+  unfold finishSched
+  by_cases hxi : x = id
+  · subst hxi
+    rw [hx]
+    refine ⟨_, get?_setTask_self _ hx, ?_⟩
+    have : ({ t with word := TaskState.finishScheduling t.word } : TaskSt) =
+        { t with word := { t.word with scheduled := t.word.scheduled, scheduling := false } } := by simp
+    rw [this]; exact .single (.sched t _ false (hl rfl))
+  · cases hg : e.get? id with
+    | none => exact ⟨t, hx, .refl t⟩
+    | some t1 => exact ⟨t, by simp only; rw [get?_setTask_ne _ _ hxi]; exact hx, .refl t⟩
+
+theorem remoteWakeB_steps {e : Exec} (h : Inv e) (hi : e.inflight = none) (id n : Nat) {x : Nat} {t : TaskSt}
+    (hx : e.get? x = some t) (hw : hasWakerClone e id = true) :
+    ∃ t', (remoteWakeB e id n).1.get? x = some t' ∧ TaskSteps true t t' := by
+  obtain ⟨t0, hg, hw0⟩ := (hasWakerClone_iff e id).mp hw
+  have hl0 : x = id → Live t := by
+    intro hxi; subst hxi; rw [hx] at hg; cases hg; exact Or.inr (Or.inl hw0)
+  by_cases he : t0.word.scheduled = true ∨ t0.word.completed = true ∨ t0.word.notCancelled = false ∨ t0.shared = false
+  · rw [remoteWakeB_early n hg he]
+    exact remoteSchedule_steps true id hx hl0
+  · have h1 : t0.word.scheduled = false := by cases hx : t0.word.scheduled <;> simp_all
+    have h2 : t0.word.completed = false := by cases hx : t0.word.completed <;> simp_all
+    have h3 : t0.word.notCancelled = true := by cases hx : t0.word.notCancelled <;> simp_all
+    have h4 : t0.shared = true := by cases hx : t0.shared <;> simp_all
+    -- the task in the state the tick starts from
+    have start : ∀ (eA : Exec), eA.tasks = e.tasks.set id { t0 with word := { t0.word with scheduled := true, scheduling := true } } →
+        ∃ t1, eA.get? x = some t1 ∧ TaskSteps true t t1 ∧ (x = id → t1.wakers ≠ 0) := by
+      intro eA hA
+      by_cases hxi : x = id
+      · subst hxi; rw [hx] at hg; cases hg
+        exact ⟨_, by simp [Exec.get?, hA, List.getElem?_set_self (get?_lt hx)],
+          .single (.sched t true true (hl0 rfl)), fun _ => hw0⟩
+      · exact ⟨t, by simp [Exec.get?, hA, List.getElem?_set_ne (Ne.symm hxi)]; exact hx, .refl t,
+          fun h => absurd h hxi⟩
+    have finish : ∀ (eA : Exec), Inv eA → ∀ t1, eA.get? x = some t1 → (x = id → t1.wakers ≠ 0) →
+        ∀ (eC : Exec), (∀ y, eC.get? y = (tickFrom eA n).1.get? y) →
+        ∃ t', (finishSched eC id).get? x = some t' ∧ TaskSteps true t1 t' := by
+      intro eA hA t1 hg1 hw1 eC hC
+      obtain ⟨t2, hg2, hs2⟩ := tickFrom_steps hA n hg1
+      obtain ⟨t2', hg2', hw2⟩ := tickLoop_wakers n (drainSync eA) (drainSync_inv hA) x t1
+        (by rw [drainSync_get? hA]; exact hg1)
+      have : t2' = t2 := by
+        have h' : (tickFrom eA n).1.get? x = some t2' := hg2'
+        rw [hg2] at h'; cases h'; rfl
+      subst this
+      obtain ⟨t3, hg3, hs3⟩ := finishSched_steps (e := eC) true id (by rw [hC]; exact hg2)
+        (fun hxi => Or.inr (Or.inl (by have := hw1 hxi; omega)))
+      exact ⟨t3, hg3, hs2.trans hs3⟩
+    rcases remoteWakeB_push n hg h1 h2 h3 h4 with ⟨_, hr⟩ | ⟨_, hr⟩ <;> rw [hr]
+    · obtain ⟨t1, hg1, hs1, hw1⟩ := start
+        ({ e.setTask id { t0 with word := { t0.word with scheduled := true, scheduling := true } } with
+            pending := e.pending + 1, sync := e.sync ++ [id], outstanding := 1 } : Exec) rfl
+      obtain ⟨t', hg', hs'⟩ := finish _ (push_inv h hg true 1) t1 hg1 hw1 _ (fun _ => rfl)
+      exact ⟨t', hg', hs1.trans hs'⟩
+    · obtain ⟨t1, hg1, hs1, hw1⟩ := start
+        ({ e.setTask id { t0 with word := { t0.word with scheduled := true, scheduling := true } } with
+            pending := e.pending + 1, outstanding := 1, inflight := some id } : Exec) rfl
+      obtain ⟨t', hg', hs'⟩ := finish _ (reserve_inv h hi hg) t1 hg1 hw1
+        ({ (tickFrom ({ e.setTask id { t0 with word := { t0.word with scheduled := true, scheduling := true } } with
+            pending := e.pending + 1, outstanding := 1, inflight := some id } : Exec) n).1 with
+              sync := (tickFrom ({ e.setTask id { t0 with word := { t0.word with scheduled := true, scheduling := true } } with
+                pending := e.pending + 1, outstanding := 1, inflight := some id } : Exec) n).1.sync ++ [id],
+              inflight := none } : Exec) (fun _ => rfl)
+      exact ⟨t', hg', hs1.trans hs'⟩
+
+/-- every operation changes every task only by primitive steps; `Task::run` steps only in a tick -/
+theorem apply_steps {e : Exec} (h : InvB e) (op : Op) {id : Nat} {t : TaskSt} (hg : e.get? id = some t) :
+    ∃ t', (apply e op).get? id = some t' ∧ TaskSteps op.ticks t t' := by
+  obtain ⟨h, hi⟩ := h
+  have hfd : ∀ x tx, e.get? x = some tx → inMap e x = true → tx.futDrops = 0 := by
+    intro x tx hx hin
+    have := h.t x tx hx; rw [hin] at this; exact this.inq_fd rfl
   cases op with
   | spawn sc =>
     cases ha : e.alive
@@ -73,7 +272,7 @@ theorem apply_steps {e : Exec} (h : Inv e) (op : Op) {id : Nat} {t : TaskSt} (hg
     cases ha : e.alive
     · exact ⟨t, by simp [apply, applyR, ha, hg], .refl t⟩
     · simp only [apply, applyR, ha]
-      exact tickLoop_steps n e h id t hg
+      exact tickFrom_steps (h.outstanding 0) n hg
   | xdrop =>
     cases ha : e.alive
     · exact ⟨t, by simp [apply, applyR, ha, hg], .refl t⟩
@@ -85,7 +284,7 @@ theorem apply_steps {e : Exec} (h : Inv e) (op : Op) {id : Nat} {t : TaskSt} (hg
       have := (foldl_clearTask (e.hot ++ e.cold) e hnd).1 id
       by_cases hm : id ∈ e.hot ++ e.cold
       · rw [if_pos hm, hg] at this
-        exact ⟨clearedTask t, this, .single (.clear t)⟩
+        exact ⟨clearedTask t, this, .single (.clear t (hfd id t hg ((inMap_iff e id).mpr (by simpa using hm))))⟩
       · rw [if_neg hm, hg] at this
         exact ⟨t, this, .refl t⟩
   | hpoll id' w =>
@@ -102,8 +301,8 @@ theorem apply_steps {e : Exec} (h : Inv e) (op : Op) {id : Nat} {t : TaskSt} (hg
     · simp only [apply, applyR, handleDrop_live hg1 hh]
       by_cases hx : id = id'
       · subst hx; rw [hg] at hg1; cases hg1
-        exact ⟨_, get?_setTask_self _ (by rw [scheduleLocal_get?]; exact hg), .single (.hdrop t hh)⟩
-      · exact ⟨t, by rw [get?_setTask_ne _ _ hx, scheduleLocal_get?]; exact hg, .refl t⟩
+        exact ⟨_, get?_setTask_self _ (by rw [scheduleLocal_get? h]; exact hg), .single (.hdrop t hh)⟩
+      · exact ⟨t, by rw [get?_setTask_ne _ _ hx, scheduleLocal_get? h]; exact hg, .refl t⟩
   | hdetach id' =>
     rcases handle_dead_or_live e id' with hd | ⟨t1, hg1, hh⟩
     · exact ⟨t, by simp [apply, applyR, handleDetach_dead hd, hg], .refl t⟩
@@ -115,16 +314,16 @@ theorem apply_steps {e : Exec} (h : Inv e) (op : Op) {id : Nat} {t : TaskSt} (hg
   | hcancel id' =>
     rcases handle_dead_or_live e id' with hd | ⟨t1, hg1, hh⟩
     · exact ⟨t, by simp [apply, hcancel_dead hd, hg], .refl t⟩
-    · simp only [apply, hcancel_live hg1 hh]
+    · simp only [apply, hcancel_live h hg1 hh]
       by_cases hx : id = id'
       · subst hx; rw [hg] at hg1; cases hg1
-        refine ⟨_, get?_setTask_self _ (by rw [scheduleLocal_get?]; exact hg), ?_⟩
+        refine ⟨_, get?_setTask_self _ (by rw [scheduleLocal_get? h]; exact hg), ?_⟩
         exact (TaskSteps.single (.cancel t hh)).tail (.poll _ _ (by rw [cancelWord_handle]; exact hh))
-      · exact ⟨t, by rw [get?_setTask_ne _ _ hx, scheduleLocal_get?]; exact hg, .refl t⟩
+      · exact ⟨t, by rw [get?_setTask_ne _ _ hx, scheduleLocal_get? h]; exact hg, .refl t⟩
   | wake id' =>
     rcases wakers_dead_or_live e id' with hd | ⟨t1, hg1, hw⟩
     · exact ⟨t, by simp [apply, applyR, wakeLocal_dead hd, hg], .refl t⟩
-    · exact ⟨t, by simp [apply, applyR, wakeLocal_live hg1 hw, scheduleLocal_get?, hg], .refl t⟩
+    · exact ⟨t, by simp [apply, applyR, wakeLocal_live hg1 hw, scheduleLocal_get? h, hg], .refl t⟩
   | wdrop id' =>
     rcases wakers_dead_or_live e id' with hd | ⟨t1, hg1, hw⟩
     · exact ⟨t, by simp [apply, applyR, wakerDrop_dead hd, hg], .refl t⟩
@@ -133,17 +332,85 @@ theorem apply_steps {e : Exec} (h : Inv e) (op : Op) {id : Nat} {t : TaskSt} (hg
       · subst hx; rw [hg] at hg1; cases hg1
         exact ⟨_, get?_setTask_self _ hg, .single (.wdrop t hw)⟩
       · exact ⟨t, by rw [get?_setTask_ne _ _ hx]; exact hg, .refl t⟩
+  | rwdrop id' =>
+    rcases wakers_dead_or_live e id' with hd | ⟨t1, hg1, hw⟩
+    · exact ⟨t, by simp [apply, applyR, wakerDrop_dead hd, hg], .refl t⟩
+    · simp only [apply, applyR, wakerDrop_live hg1 hw]
+      by_cases hx : id = id'
+      · subst hx; rw [hg] at hg1; cases hg1
+        exact ⟨_, get?_setTask_self _ hg, .single (.wdrop t hw)⟩
+      · exact ⟨t, by rw [get?_setTask_ne _ _ hx]; exact hg, .refl t⟩
+  | rhpoll id' w =>
+    simp only [apply, applyR, remoteHandlePoll]
+    cases hg1 : e.get? id' with
+    | none => exact ⟨t, hg, .refl t⟩
+    | some t1 =>
+      simp only
+      cases hh : t1.handle
+      · exact ⟨t, by simpa using hg, .refl t⟩
+      · simp only [Bool.not_true, Bool.false_eq_true, if_false]
+        by_cases hx : id = id'
+        · subst hx; rw [hg] at hg1; cases hg1
+          exact ⟨_, get?_setTask_self _ hg, .single (.rpoll t w hh)⟩
+        · exact ⟨t, by rw [get?_setTask_ne _ _ hx]; exact hg, .refl t⟩
+  | rhdrop id' =>
+    simp only [apply, applyR]
+    cases hh : hasHandle e id'
+    · exact ⟨t, by simpa using hg, .refl t⟩
+    · simp only [Bool.not_true, Bool.false_eq_true, if_false]
+      split
+      · exact ⟨t, hg, .refl t⟩
+      · obtain ⟨t1, hg1, hh1⟩ := (hasHandle_iff e id').mp hh
+        have hg1' : (chargeBudget e).get? id' = some t1 := hg1
+        simp only [remoteHandleDrop, remoteSchedule_get?_self hg1']
+        by_cases hx : id = id'
+        · subst hx; rw [hg] at hg1; cases hg1
+          refine ⟨_, get?_setTask_self _ (remoteSchedule_get?_self hg1'), ?_⟩
+          exact (TaskSteps.single (.sched t true false (Or.inl hh1))).tail (.hdrop _ hh1)
+        · exact ⟨t, by rw [get?_setTask_ne _ _ hx, remoteSchedule_get?_ne _ hx]; exact hg, .refl t⟩
+  | rhcancel id' =>
+    simp only [apply, applyR]
+    cases hh : hasHandle e id'
+    · exact ⟨t, by simpa using hg, .refl t⟩
+    · simp only [Bool.not_true, Bool.false_eq_true, if_false]
+      split
+      · exact ⟨t, hg, .refl t⟩
+      · obtain ⟨t1, hg1, hh1⟩ := (hasHandle_iff e id').mp hh
+        have hg1' : (chargeBudget e).get? id' = some t1 := hg1
+        simp only [remoteHandleCancel, remoteSchedule_get?_self hg1']
+        by_cases hx : id = id'
+        · subst hx; rw [hg] at hg1; cases hg1
+          refine ⟨_, get?_setTask_self _ (remoteSchedule_get?_self hg1'), ?_⟩
+          exact ((TaskSteps.single (.sched t true false (Or.inl hh1))).tail (.cancel _ hh1)).tail
+            (.rpoll _ _ (by rw [cancelWord_handle]; exact hh1))
+        · exact ⟨t, by rw [get?_setTask_ne _ _ hx, remoteSchedule_get?_ne _ hx]; exact hg, .refl t⟩
+  | rwake id' =>
+    simp only [apply, applyR]
+    cases hh : hasWakerClone e id'
+    · exact ⟨t, by simpa using hg, .refl t⟩
+    · simp only [Bool.not_true, Bool.false_eq_true, if_false]
+      split
+      · exact ⟨t, hg, .refl t⟩
+      · obtain ⟨t1, hg1, hw1⟩ := (hasWakerClone_iff e id').mp hh
+        exact remoteSchedule_steps (e := chargeBudget e) false id' hg (fun hx => by
+          subst hx; rw [hg] at hg1; cases hg1; exact Or.inr (Or.inl hw1))
+  | rwakeb id' n =>
+    simp only [apply, applyR]
+    cases hh : hasWakerClone e id'
+    · exact ⟨t, by simpa using hg, .refl t⟩
+    · simp only [Bool.not_true, Bool.false_eq_true, if_false]
+      exact remoteWakeB_steps h hi id' n hg hh
 
 /-- along any continuation of a program every task evolves only by primitive steps -/
-theorem foldl_steps (ops : List Op) : ∀ {e : Exec}, Inv e → ∀ {id : Nat} {t : TaskSt}, e.get? id = some t →
-    ∃ t', (ops.foldl apply e).get? id = some t' ∧ TaskSteps t t' := by
+theorem foldl_steps (ops : List Op) : ∀ {e : Exec}, InvB e → ∀ {id : Nat} {t : TaskSt}, e.get? id = some t →
+    ∃ t', (ops.foldl apply e).get? id = some t' ∧ TaskSteps true t t' := by
   induction ops with
   | nil => intro e _ id t hg; exact ⟨t, hg, .refl t⟩
   | cons op ops ih =>
     intro e h id t hg
     obtain ⟨t1, hg1, hs1⟩ := apply_steps h op hg
-    obtain ⟨t2, hg2, hs2⟩ := ih (apply_inv h op) hg1
-    exact ⟨t2, hg2, hs1.trans hs2⟩
+    obtain ⟨t2, hg2, hs2⟩ := ih (apply_invB h op) hg1
+    exact ⟨t2, hg2, hs1.weaken.trans hs2⟩
 
 /-- facts that only ever go one way along the life of a task -/
 structure Mono (a b : TaskSt) : Prop where
@@ -191,18 +458,24 @@ theorem runTask_mono (t : TaskSt) : Mono t (runTask t).1 := by
       · constructor <;> simp [runTask, hn, hs]
       · constructor <;> simp [runTask, hn, hs]
       · constructor <;> simp [runTask, hn, hs]
+      · constructor <;> simp [runTask, hn, hs]
       all_goals
         simp only [runTask, hn, hs, g_isCancelled, Bool.not_true, Bool.false_eq_true, if_false]
         refine Mono.trans ?_ (Mono.trans (taskDropByExecutor_mono _) (dropRef_mono _))
         constructor <;> simp [hn]
 
-theorem taskStep_mono {t b : TaskSt} (h : TaskStep t b) : Mono t b := by
+theorem taskStep_mono {r : Bool} {t b : TaskSt} (h : TaskStep r t b) : Mono t b := by
   cases h with
   | poll w hh =>
     obtain ⟨⟨s, sg, nsw, hw, c, hr, nc, cnt⟩, st, slot, script, sh, hd, wk, polls, fd, rt, rd, ss, sd, de, uaf, bp⟩ := t
     simp at hh; subst hh
     cases hr <;> cases nc <;> cases c <;> cases hw <;> constructor <;>
       simp [pollTask, dropRef_nc, dropRef_polls, (dropRef_mono _).comp] <;> (repeat' split) <;> simp_all
+  | rpoll w hh =>
+    obtain ⟨⟨s, sg, nsw, hw, c, hr, nc, cnt⟩, st, slot, script, sh, hd, wk, polls, fd, rt, rd, ss, sd, de, uaf, bp⟩ := t
+    simp at hh; subst hh
+    cases hr <;> cases nc <;> cases c <;> cases hw <;> constructor <;>
+      simp [remotePollTask, dropRef_nc, dropRef_polls, (dropRef_mono _).comp] <;> (repeat' split) <;> simp_all
   | hdrop hh =>
     refine Mono.trans (b := { cancelWord t true with handle := false }) ?_ (dropRef_mono _)
     obtain ⟨⟨s, sg, nsw, hw, c, hr, nc, cnt⟩, st, slot, script, sh, hd, wk, polls, fd, rt, rd, ss, sd, de, uaf, bp⟩ := t
@@ -217,16 +490,32 @@ theorem taskStep_mono {t b : TaskSt} (h : TaskStep t b) : Mono t b := by
   | wdrop hw =>
     refine Mono.trans (b := { t with wakers := t.wakers - 1 }) ?_ (dropRef_mono _)
     constructor <;> simp
-  | run => exact runTask_mono t
-  | clear => exact Mono.trans (taskDropByExecutor_mono _) (dropRef_mono _)
+  | sched x y _ => constructor <;> simp
+  | run _ _ => exact runTask_mono t
+  | clear _ => exact Mono.trans (taskDropByExecutor_mono _) (dropRef_mono _)
 
-theorem taskSteps_mono {a b : TaskSt} (h : TaskSteps a b) : Mono a b :=
+theorem taskSteps_mono {r : Bool} {a b : TaskSt} (h : TaskSteps r a b) : Mono a b :=
   TaskSteps.induct Mono.refl (fun _ _ _ => Mono.trans) (fun _ _ => taskStep_mono) h
 
+/-- outside ticks nothing is polled -/
+theorem taskSteps_norun_polls {a b : TaskSt} (h : TaskSteps false a b) : b.polls = a.polls := by
+  refine TaskSteps.induct (R := fun a b => b.polls = a.polls) (fun _ => rfl) (fun _ _ _ h1 h2 => h2.trans h1) ?_ h
+  intro a b hs
+  cases hs with
+  | poll w hh => exact pollTask_polls a w
+  | rpoll w hh => exact remotePollTask_polls a w
+  | hdrop hh => rw [dropRef_polls]; exact cancelWord_polls a true
+  | detach hh => rw [dropRef_polls]
+  | cancel hh => exact cancelWord_polls a false
+  | wdrop hw => rw [dropRef_polls]
+  | sched x y _ => rfl
+  | run hr _ => cases hr
+  | clear _ => simp [clearedTask, dropRef_polls, taskDropByExecutor_polls]
+
 /-- (D) once the allocation of a task was freed, no operation touches it any more -/
-theorem frozen_after_free {e : Exec} (h : Inv e) {id : Nat} {t : TaskSt} (hg : e.get? id = some t)
+theorem frozen_after_free {e : Exec} (h : InvB e) {id : Nat} {t : TaskSt} (hg : e.get? id = some t)
     (hd : t.deallocs = 1) (op : Op) : (apply e op).get? id = some t := by
-  have ht := h.t id t hg
+  have ht := h.inv.t id t hg
   have hhold : holders (inMap e id) t = 0 := by
     have := ht.dl; rw [hd] at this
     by_cases hz : holders (inMap e id) t = 0
@@ -241,35 +530,99 @@ theorem frozen_after_free {e : Exec} (h : Inv e) {id : Nat} {t : TaskSt} (hg : e
     · rfl
     · simp [holders, hi] at hhold
   have hw : t.wakers = 0 := by simp [holders] at hhold; omega
-  have hnd : (e.hot ++ e.cold).Nodup := by
-    rw [List.nodup_append]
-    refine ⟨h.q.hnd, h.q.cnd, ?_⟩
-    intro a ha b hb hab; subst hab; exact h.q.disj a ha hb
-  rcases apply_cases e op with h0 | ⟨id', t1, t', hg', hlive, _, h1 | h1⟩ | ⟨ha, ⟨sc, rfl⟩ | ⟨n, rfl⟩ | rfl⟩
-  · rw [h0]; exact hg
-  · have hx : id ≠ id' := by
-      intro hx; subst hx; rw [hg] at hg'; cases hg'
-      rcases hlive with h2 | h2
-      · rw [hh] at h2; cases h2
-      · exact h2 hw
-    rw [h1, get?_setTask_ne _ _ hx]; exact hg
-  · have hx : id ≠ id' := by
-      intro hx; subst hx; rw [hg] at hg'; cases hg'
-      rcases hlive with h2 | h2
-      · rw [hh] at h2; cases h2
-      · exact h2 hw
-    rw [h1, get?_setTask_ne _ _ hx, scheduleLocal_get?]; exact hg
-  · simp [apply, applyR, ha, spawn, Exec.get?, List.getElem?_append_left (get?_lt hg)]
-    exact hg
-  · simp only [apply, applyR, ha]
-    show (tickLoop n e.hot.head? e []).1.get? id = some t
-    rw [tickLoop_frame n e h id hin, hg]
-  · simp only [apply, applyR, ha]
-    have := (foldl_clearTask (e.hot ++ e.cold) e hnd).1 id
-    rw [inMap_false_iff] at hin
-    rw [if_neg (by simpa using hin)] at this
-    show ((e.hot ++ e.cold).foldl clearTask e).get? id = some t
-    rw [this, hg]
+  rw [hin] at ht
+  have hnl : ¬ Live t := by
+    rintro (h1 | h1 | h1)
+    · rw [hh] at h1; cases h1
+    · exact h1 hw
+    · rw [ht.outq_fd rfl] at h1; cases h1
+  obtain ⟨t', hg', hs⟩ := apply_steps h op hg
+  rw [hs.frozen hnl] at hg'; exact hg'
+
+
+theorem makeHot_tasks' (l : List Nat) : ∀ e : Exec, (l.foldl makeHot e).tasks = e.tasks := by
+  induction l with
+  | nil => intro e; rfl
+  | cons a l ih => intro e; rw [List.foldl_cons, ih, (makeHot_fields e a).1]
+
+/-- `drain_sync` and `Local::schedule` never touch a task (no invariant needed) -/
+theorem drainSync_tasks (e : Exec) : (drainSync e).tasks = e.tasks := by
+  unfold drainSync
+  split
+  · rfl
+  · simp only; split <;> simp [makeHot_tasks']
+
+theorem scheduleLocal_tasks (e : Exec) (id : Nat) : (scheduleLocal e id).tasks = e.tasks := by
+  rcases scheduleLocal_cases e id with he | he <;> rw [he]
+  rw [(makeHot_fields _ id).1, drainSync_tasks]
+
+theorem remoteScheduleGuarded_get?_ne (e : Exec) {id x : Nat} (hx : x ≠ id) :
+    (remoteScheduleGuarded e id).get? x = e.get? x := by
+  rcases remoteScheduleGuarded_cases e id with he | he <;> rw [he]
+  rw [remoteSchedule_get?_ne _ hx]; rfl
+
+/-! ## one whole tick: `drain_sync`, then the loop -/
+
+theorem liveIn_congr {e e' : Exec} (h : ∀ x, e'.get? x = e.get? x) (x : Nat) :
+    (liveIn e' x ↔ liveIn e x) ∧ (cancelledIn e' x ↔ cancelledIn e x) := by
+  simp [liveIn, cancelledIn, h x]
+
+/-- the hot queue the loop of a `tick` line starts from: the old hot queue, then the drained ids -/
+def tickStart (e : Exec) : Exec := drainSync { e with outstanding := 0 }
+
+theorem tick_eq (e : Exec) (n : Nat) :
+    tick e n = ((tickLoop n (tickStart e).hot.head? (tickStart e) []).1,
+                (tickLoop n (tickStart e).hot.head? (tickStart e) []).2,
+                !(tickLoop n (tickStart e).hot.head? (tickStart e) []).1.hot.isEmpty) := rfl
+
+structure StartFacts (e : Exec) : Prop where
+  inv : Inv (tickStart e)
+  get : ∀ x, (tickStart e).get? x = e.get? x
+  inMap : ∀ x, inMap (tickStart e) x = inMap e x
+  hot : ∃ w, (tickStart e).hot = e.hot ++ w ∧ w.length ≤ e.sync.length ∧ ∀ x, x ∈ w → x ∈ e.cold ∧ x ∈ e.sync
+  cold : ∀ x, x ∈ (tickStart e).cold ↔ (x ∈ e.cold ∧ x ∉ e.sync)
+  inflight : (tickStart e).inflight = e.inflight
+
+theorem tickStart_facts {e : Exec} (h : Inv e) : StartFacts e := by
+  have h0 := h.outstanding 0
+  have d := drainSync_facts h0
+  exact ⟨d.inv, fun x => drainSync_get? h0 x, fun x => drainSync_inMap h0 x, d.hot, d.cold, d.inflight⟩
+
+theorem tickStart_hot_get {e : Exec} (h : Inv e) {p x : Nat} (hx : e.hot[p]? = some x) :
+    (tickStart e).hot[p]? = some x := by
+  obtain ⟨w, hw, _⟩ := (tickStart_facts h).hot
+  rw [hw, List.getElem?_append_left (List.getElem?_eq_some_iff.mp hx).1]; exact hx
+
+/-- a cancelled task that is still queued is in the hot queue the next tick starts from -/
+theorem cancelled_in_tickStart {e : Exec} (h : InvB e) {x : Nat} (hc : cancelledIn e x) (hq : inMap e x = true) :
+    x ∈ (tickStart e).hot := by
+  have sf := tickStart_facts h.inv
+  obtain ⟨t, hg, hn⟩ := hc
+  have hq' : x ∈ (tickStart e).hot ∨ x ∈ (tickStart e).cold := by rw [← inMap_iff, sf.inMap]; exact hq
+  rcases hq' with h1 | h1
+  · exact h1
+  · have := (sf.cold x).mp h1
+    rcases h.inv.c x t hg hn this.1 with h2 | h2
+    · exact absurd h2 this.2
+    · rw [h.idle] at h2; cases h2
+
+/-- a queued task with a cross-thread wake-up accepted (SCHEDULED) is in the hot queue the next tick starts from -/
+theorem scheduled_in_tickStart {e : Exec} (h : InvB e) {x : Nat} {t : TaskSt} (hg : e.get? x = some t)
+    (hs : t.word.scheduled = true) (hq : inMap e x = true) : x ∈ (tickStart e).hot := by
+  have sf := tickStart_facts h.inv
+  have hq' : x ∈ (tickStart e).hot ∨ x ∈ (tickStart e).cold := by rw [← inMap_iff, sf.inMap]; exact hq
+  rcases hq' with h1 | h1
+  · exact h1
+  · have := (sf.cold x).mp h1
+    rcases h.inv.s x t hg hs this.1 with h2 | h2
+    · exact absurd h2 this.2
+    · rw [h.idle] at h2; cases h2
+
+theorem tick_inflight {e : Exec} (h : Inv e) (n : Nat) : (tick e n).1.inflight = e.inflight :=
+  (tickFrom_fields (h.outstanding 0) n).2.1
+
+theorem tick_invB {e : Exec} (h : InvB e) (n : Nat) : InvB (tick e n).1 :=
+  ⟨tick_inv h.inv n, by rw [tick_inflight h.inv]; exact h.idle⟩
 
 /-! ## several ticks in a row -/
 
@@ -278,59 +631,117 @@ def tickN (e : Exec) (n : Nat) : Nat → Exec × List Nat
   | 0 => (e, [])
   | k + 1 => ((tickN (tick e n).1 n k).1, (tick e n).2.1 ++ (tickN (tick e n).1 n k).2)
 
-theorem tickN_inv {e : Exec} (h : Inv e) (n k : Nat) : Inv (tickN e n k).1 := by
+theorem tickN_invB {e : Exec} (h : InvB e) (n k : Nat) : InvB (tickN e n k).1 := by
   induction k generalizing e with
   | zero => exact h
-  | succ k ih => exact ih (tick_inv h n)
+  | succ k ih => exact ih (tick_invB h n)
 
-/-- no starvation: a live hot task at position `p` is polled within ⌈(p+1)/n⌉ ticks -/
-theorem tickN_polls_live {e : Exec} (h : Inv e) (n : Nat) (hn : 0 < n) (k : Nat) :
-    ∀ p x, e.hot[p]? = some x → liveIn e x → p < k * n → x ∈ (tickN e n k).2 := by
+theorem tickN_steps (n : Nat) : ∀ (k : Nat) {e : Exec}, Inv e → ∀ {x : Nat} {t : TaskSt}, e.get? x = some t →
+    ∃ t', (tickN e n k).1.get? x = some t' ∧ TaskSteps true t t' := by
+  intro k
+  induction k with
+  | zero => intro e _ x t hx; exact ⟨t, hx, .refl t⟩
+  | succ k ih =>
+    intro e h x t hx
+    obtain ⟨t1, hg1, hs1⟩ := tickFrom_steps (h.outstanding 0) n (x := x) (t := t) hx
+    obtain ⟨t2, hg2, hs2⟩ := ih (tick_inv h n) (x := x) (t := t1) hg1
+    exact ⟨t2, hg2, hs1.trans hs2⟩
+
+theorem tickN_sub {e : Exec} (h : Inv e) (n : Nat) : ∀ (k : Nat) (e : Exec), Inv e →
+    ∀ y, inMap (tickN e n k).1 y = true → inMap e y = true := by
+  intro k
+  induction k with
+  | zero => intro e _ y hy; exact hy
+  | succ k ihk =>
+    intro e he y hy
+    have := (tickLoop_sub n (tickStart e) (tickStart_facts he).inv).1 y (ihk _ (tick_inv he n) y hy)
+    rw [(tickStart_facts he).inMap] at this; exact this
+
+/-- a live task at position `p` of the hot queue the first tick starts from is polled within `k` ticks
+when `k * n > p` -/
+theorem tickN_polls_live_start {e : Exec} (h : Inv e) (n : Nat) (hn : 0 < n) (k : Nat) :
+    ∀ p x, (tickStart e).hot[p]? = some x → liveIn e x → p < k * n → x ∈ (tickN e n k).2 := by
   induction k generalizing e with
   | zero => intro p x _ _ hp; omega
   | succ k ih =>
     intro p x hx hl hp
+    have sf := tickStart_facts h
+    have hl0 : liveIn (tickStart e) x := (liveIn_congr sf.get x).1.mpr hl
     simp only [tickN]
     by_cases hpn : p < n
-    · exact List.mem_append_left _ ((tickLoop_visit n e h p x hx hpn).2 hl)
-    · have hs := tickLoop_shift n e h p x hx (by omega)
+    · exact List.mem_append_left _ ((tickLoop_visit n _ sf.inv p x hx hpn).2 hl0)
+    · have hs := tickLoop_shift n _ sf.inv p x hx (by omega)
       have hin : inMap (tick e n).1 x = true := (inMap_iff _ _).mpr (Or.inl (List.mem_of_getElem? hs))
-      have hl' := (tickLoop_sub n e h).2 x hl hin
-      exact List.mem_append_right _ (ih (tick_inv h n) (p - n) x hs hl' (by
+      have hl' : liveIn (tick e n).1 x := (tickLoop_sub n _ sf.inv).2 x hl0 hin
+      exact List.mem_append_right _ (ih (tick_inv h n) (p - n) x (tickStart_hot_get (tick_inv h n) hs) hl' (by
         have : (k + 1) * n = k * n + n := Nat.succ_mul k n
         omega))
 
-/-- a cancelled hot task at position `p` is dropped and removed within ⌈(p+1)/n⌉ ticks, never polled -/
-theorem tickN_drops_cancelled {e : Exec} (h : Inv e) (n : Nat) (hn : 0 < n) (k : Nat) :
-    ∀ p x, e.hot[p]? = some x → cancelledIn e x → p < k * n → inMap (tickN e n k).1 x = false := by
+/-- a cancelled task at position `p` of the hot queue the first tick starts from is dropped and removed
+within `k` ticks when `k * n > p`, never polled -/
+theorem tickN_drops_cancelled_start {e : Exec} (h : Inv e) (n : Nat) (hn : 0 < n) (k : Nat) :
+    ∀ p x, (tickStart e).hot[p]? = some x → cancelledIn e x → p < k * n → inMap (tickN e n k).1 x = false := by
   induction k generalizing e with
   | zero => intro p x _ _ hp; omega
   | succ k ih =>
     intro p x hx hc hp
+    have sf := tickStart_facts h
+    have hc0 : cancelledIn (tickStart e) x := (liveIn_congr sf.get x).2.mpr hc
     simp only [tickN]
-    have hsubN : ∀ (k : Nat) (e : Exec), Inv e → ∀ y, inMap (tickN e n k).1 y = true → inMap e y = true := by
-      intro k
-      induction k with
-      | zero => intro e _ y hy; exact hy
-      | succ k ihk =>
-        intro e he y hy
-        exact (tickLoop_sub n e he).1 y (ihk _ (tick_inv he n) y hy)
     by_cases hpn : p < n
-    · have hgone := (tickLoop_visit n e h p x hx hpn).1 hc
+    · have hgone := (tickLoop_visit n _ sf.inv p x hx hpn).1 hc0
       cases hin : inMap (tickN (tick e n).1 n k).1 x
       · rfl
-      · have := hsubN k _ (tick_inv h n) x hin
-        rw [show (tick e n).1 = (tickLoop n e.hot.head? e []).1 from rfl, hgone] at this; cases this
-    · have hs := tickLoop_shift n e h p x hx (by omega)
-      obtain ⟨t, hg, hnc⟩ := hc
-      obtain ⟨t', hg', hst⟩ := tickLoop_steps n e h x t hg
+      · have := tickN_sub h n k _ (tick_inv h n) x hin
+        rw [tick_eq] at this; simp only at this
+        rw [hgone] at this; cases this
+    · have hs := tickLoop_shift n _ sf.inv p x hx (by omega)
+      obtain ⟨t, hg, hnc⟩ := hc0
+      obtain ⟨t', hg', hst⟩ := tickLoop_steps n _ sf.inv x t hg
       have hc' : cancelledIn (tick e n).1 x := by
         refine ⟨t', hg', ?_⟩
         cases hn' : t'.word.notCancelled
         · rfl
         · rw [(taskSteps_mono hst).nc hn'] at hnc; cases hnc
-      exact ih (tick_inv h n) (p - n) x hs hc' (by
+      exact ih (tick_inv h n) (p - n) x (tickStart_hot_get (tick_inv h n) hs) hc' (by
         have : (k + 1) * n = k * n + n := Nat.succ_mul k n
         omega)
+
+theorem tickN_polls_live {e : Exec} (h : Inv e) (n : Nat) (hn : 0 < n) (k : Nat) :
+    ∀ p x, e.hot[p]? = some x → liveIn e x → p < k * n → x ∈ (tickN e n k).2 :=
+  fun p x hx => tickN_polls_live_start h n hn k p x (tickStart_hot_get h hx)
+
+theorem tickN_drops_cancelled {e : Exec} (h : Inv e) (n : Nat) (hn : 0 < n) (k : Nat) :
+    ∀ p x, e.hot[p]? = some x → cancelledIn e x → p < k * n → inMap (tickN e n k).1 x = false :=
+  fun p x hx => tickN_drops_cancelled_start h n hn k p x (tickStart_hot_get h hx)
+
+theorem mem_getElem? {l : List Nat} {x : Nat} (h : x ∈ l) : ∃ p, p < l.length ∧ l[p]? = some x := by
+  obtain ⟨p, hp, he⟩ := List.getElem_of_mem h
+  exact ⟨p, hp, by simp [hp, he]⟩
+
+theorem tickStart_hot_length {e : Exec} (h : Inv e) : (tickStart e).hot.length ≤ e.hot.length + e.sync.length := by
+  obtain ⟨w, hw, hl, _⟩ := (tickStart_facts h).hot
+  rw [hw]; simp; omega
+
+/-- dropping the handle cancels, wherever the handle lives: a cancelled task that is still queued is
+reaped (future dropped unpolled, task removed) within `k` ticks as soon as `k * n ≥ |hot| + |sync|` -/
+theorem tickN_reaps_cancelled {e : Exec} (h : InvB e) (n : Nat) (hn : 0 < n) (k : Nat) {x : Nat}
+    (hc : cancelledIn e x) (hk : e.hot.length + e.sync.length ≤ k * n) : inMap (tickN e n k).1 x = false := by
+  cases hq : inMap e x
+  · cases hin : inMap (tickN e n k).1 x
+    · rfl
+    · rw [tickN_sub h.inv n k e h.inv x hin] at hq; cases hq
+  · obtain ⟨p, hp, hx⟩ := mem_getElem? (cancelled_in_tickStart h hc hq)
+    have := tickStart_hot_length h.inv
+    exact tickN_drops_cancelled_start h.inv n hn k p x hx hc (by omega)
+
+/-- a cross-thread wake-up is not lost: a live queued task whose SCHEDULED bit is set is polled within
+`k` ticks as soon as `k * n ≥ |hot| + |sync|` -/
+theorem tickN_polls_scheduled {e : Exec} (h : InvB e) (n : Nat) (hn : 0 < n) (k : Nat) {x : Nat} {t : TaskSt}
+    (hg : e.get? x = some t) (hs : t.word.scheduled = true) (hl : t.word.notCancelled = true)
+    (hq : inMap e x = true) (hk : e.hot.length + e.sync.length ≤ k * n) : x ∈ (tickN e n k).2 := by
+  obtain ⟨p, hp, hx⟩ := mem_getElem? (scheduled_in_tickStart h hg hs hq)
+  have := tickStart_hot_length h.inv
+  exact tickN_polls_live_start h.inv n hn k p x hx ⟨t, hg, hl⟩ (by omega)
 
 end Compio.Executor
